@@ -123,4 +123,123 @@ theorem catch_fires_on_error (s : TaskState) : ownLifeCycle s = some .errorCatch
 example : bubble "e2" [⟨3, [], false, false⟩, ⟨2, [some "e1"], false, false⟩, ⟨1, [some "e3", none], false, false⟩, ⟨0, [], false, false⟩]
     = ([3, 2], .caughtAt 1 none) := by decide
 
+/-! ## Histories: any number of errors, raised anywhere, in any order (K3) -/
+
+/-- an error that task `tid` catches finds it unflagged and open, is taken by the first matching catch declared on it,
+and leaves it flagged -/
+theorem raise_caught_fresh (h : Hist) (code : String) (chain : List Decl) (tid : Nat) (on : Option String)
+    (hr : (raise h code chain).2 = .caughtAt tid on) :
+    tid ∉ h.processed ∧ tid ∉ h.closed ∧ tid ∈ (raise h code chain).1.processed ∧
+      ∃ d ∈ chain, d.1 = tid ∧ select d.2 code = some on := by
+  unfold raise at hr ⊢
+  cases hb : bubble code (chain.map (member h)) with
+  | mk errs out =>
+    simp only [hb] at hr ⊢
+    cases out with
+    | caughtAt t o =>
+      simp only [Outcome.caughtAt.injEq] at hr
+      obtain ⟨rfl, rfl⟩ := hr
+      obtain ⟨pre, m, post, h1, h2, _, h4, h5, h6, _⟩ := bubble_caught code _ t o errs hb
+      have hm : m ∈ chain.map (member h) := by rw [h1]; simp
+      obtain ⟨d, hd, rfl⟩ := List.mem_map.mp hm
+      simp only [member] at h2 h4 h5 h6
+      subst h2
+      refine ⟨by simpa using h5, by simpa using h4, by simp, d, hd, rfl, h6⟩
+    | stoppedAt t => simp at hr
+    | uncaught => simp at hr
+
+/-- the flags only grow -/
+theorem raise_flags_mono (h : Hist) (code : String) (chain : List Decl) :
+    (∀ t ∈ h.processed, t ∈ (raise h code chain).1.processed) ∧ (∀ t ∈ h.closed, t ∈ (raise h code chain).1.closed) := by
+  unfold raise
+  cases hb : bubble code (chain.map (member h)) with
+  | mk errs out => cases out <;> simp_all
+
+/-- **exactly once, over every history**: whatever errors are raised, on whatever chains and in whatever order, a task takes an
+error with its catch at most once; a task that has already done so, or that an error has passed through, never does -/
+theorem caught_at_most_once (evs : List (String × List Decl)) (h : Hist) (tid : Nat) :
+    ((run h evs).filter (Outcome.isCaughtBy tid)).length ≤ 1 ∧
+    ((tid ∈ h.processed ∨ tid ∈ h.closed) → ((run h evs).filter (Outcome.isCaughtBy tid)).length = 0) := by
+  induction evs generalizing h with
+  | nil => simp [run]
+  | cons e rest ih =>
+    obtain ⟨ih1, ih2⟩ := ih (raise h e.1 e.2).1
+    obtain ⟨mp, mc⟩ := raise_flags_mono h e.1 e.2
+    simp only [run, List.filter_cons]
+    cases ho : (raise h e.1 e.2).2 with
+    | caughtAt t o =>
+      by_cases ht : t = tid
+      · subst ht
+        obtain ⟨f1, f2, f3, _⟩ := raise_caught_fresh h e.1 e.2 t o ho
+        have h0 := ih2 (Or.inl f3)
+        simp only [Outcome.isCaughtBy, beq_self_eq_true, ↓reduceIte, List.length_cons, h0]
+        refine ⟨by omega, ?_⟩
+        rintro (hp | hc)
+        · exact absurd hp f1
+        · exact absurd hc f2
+      · have hb : (t == tid) = false := by simpa using ht
+        simp only [Outcome.isCaughtBy, hb, Bool.false_eq_true, ↓reduceIte]
+        refine ⟨ih1, ?_⟩
+        rintro (hp | hc)
+        · exact ih2 (Or.inl (mp _ hp))
+        · exact ih2 (Or.inr (mc _ hc))
+    | stoppedAt t =>
+      simp only [Outcome.isCaughtBy, Bool.false_eq_true, ↓reduceIte]
+      refine ⟨ih1, ?_⟩
+      rintro (hp | hc)
+      · exact ih2 (Or.inl (mp _ hp))
+      · exact ih2 (Or.inr (mc _ hc))
+    | uncaught =>
+      simp only [Outcome.isCaughtBy, Bool.false_eq_true, ↓reduceIte]
+      refine ⟨ih1, ?_⟩
+      rintro (hp | hc)
+      · exact ih2 (Or.inl (mp _ hp))
+      · exact ih2 (Or.inr (mc _ hc))
+
+/-- **a declared catch is not lost**: an error raised on a chain of open, unflagged tasks of which at least one declares a
+matching catch is caught (it never ends the process) -/
+theorem matching_catch_takes (h : Hist) (code : String) (chain : List Decl)
+    (hopen : ∀ d ∈ chain, d.1 ∉ h.closed ∧ d.1 ∉ h.processed)
+    (hdecl : ∃ d ∈ chain, (select d.2 code).isSome) :
+    ∃ tid on, (raise h code chain).2 = .caughtAt tid on := by
+  have key : ∀ ms : List Member, (∀ m ∈ ms, m.closed = false ∧ m.processed = false) →
+      (∃ m ∈ ms, (select m.catches code).isSome) → ∃ tid on, (bubble code ms).2 = .caughtAt tid on := by
+    intro ms
+    induction ms with
+    | nil => intro _ h2; obtain ⟨m, hm, _⟩ := h2; cases hm
+    | cons m ms ih =>
+      intro h1 h2
+      obtain ⟨hc, hp⟩ := h1 m (by simp)
+      unfold bubble
+      simp only [hc, Bool.false_eq_true, ↓reduceIte, hp]
+      cases hs : select m.catches code with
+      | some on => exact ⟨m.tid, on, rfl⟩
+      | none =>
+        have h2' : ∃ x ∈ ms, (select x.catches code).isSome := by
+          obtain ⟨x, hx, hx2⟩ := h2
+          rcases List.mem_cons.mp hx with rfl | hx'
+          · simp [hs] at hx2
+          · exact ⟨x, hx', hx2⟩
+        obtain ⟨tid, on, hb⟩ := ih (fun x hx => h1 x (List.mem_cons_of_mem _ hx)) h2'
+        exact ⟨tid, on, by simpa using hb⟩
+  have h1 : ∀ m ∈ chain.map (member h), m.closed = false ∧ m.processed = false := by
+    intro m hm
+    obtain ⟨d, hd, rfl⟩ := List.mem_map.mp hm
+    obtain ⟨a, b⟩ := hopen d hd
+    simp [member, a, b]
+  have h2 : ∃ m ∈ chain.map (member h), (select m.catches code).isSome := by
+    obtain ⟨d, hd, hs⟩ := hdecl
+    exact ⟨member h d, List.mem_map.mpr ⟨d, hd, rfl⟩, by simpa [member] using hs⟩
+  obtain ⟨tid, on, hb⟩ := key _ h1 h2
+  refine ⟨tid, on, ?_⟩
+  unfold raise
+  cases hb' : bubble code (chain.map (member h)) with
+  | mk errs out => rw [hb'] at hb; simp only at hb; subst hb; rfl
+
+/-- non-vacuity: three errors under one step with a catch-all (tid 1): the first is caught there, the second and third
+(new acts below the revived step) pass through it to the workflow's own catch (tid 0), which takes one of them -/
+example : run {} [("e", [(3, []), (1, [none]), (0, [some "e"])]), ("e", [(4, []), (1, [none]), (0, [some "e"])]),
+                  ("e", [(5, []), (1, [none]), (0, [some "e"])])]
+    = [.caughtAt 1 none, .caughtAt 0 (some "e"), .stoppedAt 1] := by decide
+
 end Acts.C06
